@@ -952,11 +952,11 @@ func (r *runningStep) cancelStep() {
 	// If it isn't, cancelling the context alone should be enough.
 	if r.currentStage == StageIDRunning {
 		// Verify that the step has a cancel signal
-		if !r.hasCancellationHandler() {
-			r.logger.Errorf("could not cancel step %s/%s. Does not contain cancel signal receiver.", r.runID, r.pluginStepID)
-		}
 		cancelSignal := r.getCancellationHandler()
-		if err := plugin.CancellationSignalSchema.DataSchema().ValidateCompatibility(cancelSignal.DataSchema()); err != nil {
+		if !r.hasCancellationHandler() {
+			// There is no signal to send. Cancelling the context below makes the run stage force close the step.
+			r.logger.Errorf("could not cancel step %s/%s. Does not contain cancel signal receiver.", r.runID, r.pluginStepID)
+		} else if err := plugin.CancellationSignalSchema.DataSchema().ValidateCompatibility(cancelSignal.DataSchema()); err != nil {
 			r.logger.Errorf("validation failed for cancel signal for step %s/%s: %s", r.runID, r.pluginStepID, err)
 		} else if r.signalToStep == nil {
 			r.logger.Debugf("signal send channel closed; the step %s/%s likely finished", r.runID, r.pluginStepID)
